@@ -186,6 +186,24 @@ Qed.
 Lemma andb3 a b c : a && b && c = true -> a = true /\ b = true /\ c = true.
 Proof. destruct a, b, c; cbn; intuition congruence. Qed.
 
+(* the replacer's single pass = delete every "CHF", then every "'" *)
+Lemma sc_clean_fuel_spec f : forall s, (length s <= f)%nat ->
+  sc_clean_fuel f s = remove_byte 39 (remove_all_fuel f s_CHF s).
+Proof.
+  induction f as [|f IH]; intros s Hl.
+  - destruct s; [reflexivity|cbn in Hl; lia].
+  - destruct s as [|c t]; [reflexivity|].
+    cbn [sc_clean_fuel remove_all_fuel]. change (length s_CHF) with 3%nat.
+    destruct (is_prefix s_CHF (c :: t)).
+    + apply IH. rewrite skipn_length. cbn [length] in *. lia.
+    + unfold remove_byte. cbn [filter]. fold (remove_byte 39 (remove_all_fuel f s_CHF t)).
+      cbn [length] in Hl. rewrite <- IH by lia.
+      destruct (c =? 39)%Z; reflexivity.
+Qed.
+
+Lemma sc_clean_spec s : sc_clean s = sc_amount_text s.
+Proof. unfold sc_clean, sc_amount_text, remove_all. apply sc_clean_fuel_spec. lia. Qed.
+
 Lemma sc_row_booking acct r : acct <> tbd_account -> sc_is_booking r = true -> sc_wf_row r = true ->
   exists t, sc_booking acct r = MOk (Some (DTxn t)) /\
             books acct tbd_account (sc_fact r) t /\ t_desc t = sc_text r.
@@ -196,9 +214,9 @@ Proof.
   unfold field in *. cbn [nth] in *. cbn [sc_is_booking] in Hb. apply andb_prop in Hb. destruct Hb as [Hb0 Hb1].
   apply is_some_inv in Hd. destruct Hd as [d Hd]. apply is_some_inv in Hq. destruct Hq as [q Hq].
   unfold sc_booking, fld_p, fld, sc_words, len_is. cbn [nth_error length Nat.eqb].
-  rewrite Hb0, Hb1. cbn [negb]. rewrite Hd. unfold sc_clean. unfold sc_amount_text in Hq. rewrite Hq.
+  rewrite Hb0, Hb1. cbn [negb]. rewrite Hd. rewrite sc_clean_spec, Hq.
   eexists. split; [reflexivity|]. split.
-  - unfold sc_fact, field, sc_amount_text. cbn [nth]. rewrite Hd, Hq. cbn [date_or0 dec_or0].
+  - unfold sc_fact, field. cbn [nth]. rewrite Hd, Hq. cbn [date_or0 dec_or0].
     apply books_credit; try assumption; try reflexivity. cbn [rf_amount]. apply dvalue_neg.
   - reflexivity.
 Qed.
@@ -649,3 +667,64 @@ Lemma pf_stdout_witness :
   ir_status (run_postfinance true w_acct_flag items) = SOk /\
   ir_stdout (run_postfinance true w_acct_flag items) <> print_directives [].
 Proof. vm_compute. repeat split. discriminate. Qed.
+
+(* ---------------------------------------------------------------- end to end: flags to stdout *)
+
+Theorem swisscard2_run flag acct header rows :
+  account_flag flag = AAcc acct -> acct <> tbd_account -> forallb sc2_wf_row rows = true ->
+  exists ts, run_swisscard2 flag (CRec header :: map CRec rows) = mkRun (print_directives (map DTxn ts)) SOk /\
+    Forall2 (books acct tbd_account) (map sc2_fact rows) ts /\ map t_desc ts = map sc2_text rows.
+Proof.
+  intros Hf Hne Hwf. destruct (swisscard2_faithful acct header rows Hne Hwf) as (ts & Hi & Hb & Hd).
+  exists ts. split; [eapply run_swisscard2_ok; eassumption|]. split; assumption.
+Qed.
+
+Theorem swisscard_run flag acct rows :
+  account_flag flag = AAcc acct -> acct <> tbd_account -> forallb sc_wf_row rows = true ->
+  exists ts, run_swisscard flag (map CRec rows) = mkRun (print_directives (map DTxn ts)) SOk /\
+    Forall2 (books acct tbd_account) (map sc_fact (filter sc_is_booking rows)) ts /\
+    map t_desc ts = map sc_text (filter sc_is_booking rows).
+Proof.
+  intros Hf Hne Hwf. destruct (swisscard_faithful acct rows Hne Hwf) as (ts & Hi & Hb & Hd).
+  exists ts. split; [eapply run_swisscard_ok; eassumption|]. split; assumption.
+Qed.
+
+Theorem supercard_run flag acct header rows :
+  account_flag flag = AAcc acct -> acct <> tbd_account -> forallb sup_wf_row rows = true ->
+  exists ts, run_supercard flag (CRec sup_first :: CRec header :: map CRec rows) = mkRun (print_directives (map DTxn ts)) SOk /\
+    Forall2 (books acct tbd_account) (map sup_fact (filter sup_is_booking rows)) ts /\
+    map t_desc ts = map sup_text (filter sup_is_booking rows).
+Proof.
+  intros Hf Hne Hwf. destruct (supercard_faithful acct header rows Hne Hwf) as (ts & Hi & Hb & Hd).
+  exists ts. split; [eapply run_supercard_ok; eassumption|]. split; assumption.
+Qed.
+
+Theorem cumulus_run flag acct entries :
+  account_flag flag = AAcc acct -> acct <> tbd_account -> forallb cum_wf_entry entries = true ->
+  exists ts, run_cumulus flag (map CRec (flat_map cum_records entries)) = mkRun (print_directives (map DTxn ts)) SOk /\
+    Forall2 (books acct tbd_account) (flat_map cum_facts entries) ts /\
+    map t_desc ts = flat_map cum_texts entries.
+Proof.
+  intros Hf Hne Hwf. destruct (cumulus_faithful acct entries Hne Hwf) as (ts & Hi & Hb & Hd).
+  exists ts. split; [eapply run_cumulus_ok; eassumption|]. split; assumption.
+Qed.
+
+Theorem postfinance_run dbg flag acct kvs header rows d1 ds :
+  let cur := pf_header_currency kvs s_CHF in
+  account_flag flag = AAcc acct -> acct <> tbd_account ->
+  forallb pf_is_kv kvs = true -> pf_is_kv header = false -> valid_name cur = true ->
+  forallb pf_wf_row rows = true -> pf_is_row d1 = false -> forallb (fun r => len_is r 1) ds = true ->
+  exists ts, run_postfinance dbg flag (pf_statement kvs header rows d1 ds) =
+             mkRun (pf_debug_line dbg d1 ++ print_directives (map DTxn ts)) SOk /\
+    Forall2 (books acct tbd_account) (map (pf_fact cur) rows) ts /\
+    map t_desc ts = map pf_text rows.
+Proof.
+  intros cur Hf Hne Hk Hh Hc Hr Hd1 Hds.
+  destruct (postfinance_faithful dbg acct kvs header rows d1 ds Hne Hk Hh Hc Hr Hd1 Hds) as (ts & Hi & Hb & Hd).
+  exists ts. split; [eapply run_postfinance_ok; eassumption|]. split; assumption.
+Qed.
+
+Theorem viac_run flag l :
+  valid_name flag = true -> forallb viac_wf_entry l = true ->
+  run_viac flag None (VValues l) = mkRun (print_directives (map (price_of flag s_CHF) (viac_prices 0 l))) SOk.
+Proof. intros Hf Hwf. apply run_viac_ok; [assumption|]. apply viac_faithful. assumption. Qed.
